@@ -40,8 +40,27 @@ def check_tree() -> str | None:
     return None
 
 
+def configure_logging(ctx: Ctx) -> None:
+    """Log level is a configuration of the library (its CLI runs at DEBUG): odd shards and unsharded runs execute with
+    the `aiomysensors` logger at DEBUG and a sink that formats every record, so code that only runs when debug logging
+    is enabled is exercised too.  Nothing is printed."""
+    import logging
+
+    class FormattingSink(logging.Handler):
+        def emit(self, record: logging.LogRecord) -> None:
+            record.getMessage()
+
+    logger = logging.getLogger("aiomysensors")
+    logger.handlers[:] = [FormattingSink()]
+    logger.propagate = False
+    debug = ctx.shard_count == 1 or ctx.shard_index % 2 == 1
+    logger.setLevel(logging.DEBUG if debug else logging.WARNING)
+    ctx.obs("log-level:" + ("DEBUG" if debug else "WARNING"))
+
+
 def run_shard(pid: str, tier: str, seed: int, shard: tuple[int, int], out: str) -> int:
     ctx = Ctx(pid, tier, seed, shard)
+    configure_logging(ctx)
     module = load_module(pid)
     try:
         module.run(ctx)
@@ -92,6 +111,7 @@ def main(argv: list[str] | None = None) -> int:
         shards = args.jobs
     shards = max(1, min(shards, os.cpu_count() or 1))
     if shards == 1:
+        configure_logging(ctx)
         try:
             module.run(ctx)
         except (KeyboardInterrupt, SystemExit):
